@@ -667,6 +667,6 @@ fn main() {
 	let reg: Vec<Case> = check.regression_cases("serve");
 	check.enumerate("regressions", reg, false, oracle);
 	check.enumerate("fixed-pairs", fixed_cases(), false, oracle);
-	check.phase("serve", check.cases(150, 3000), strategy, oracle);
+	check.phase("serve", check.cases(800, 24_000), strategy, oracle);
 	check.finish();
 }
